@@ -5,6 +5,7 @@ HARNESS = 'harness/c05.py'
 TRUSTED_BASE = [
     'Lean 4.33 kernel; axioms propext, Classical.choice, Quot.sound only (audited per theorem each run)',
     'hand-written model lean/PysphVerif/Model/Determinism.lean (pair loop as micro-steps, threads as programs, schedules, _sort_neighbors, gather), tied to the generated OpenMP/serial loop by bit-exact execution at Float of a non-commutative fold under random partitions and interleavings (harness/c05.py, problem "tie")',
+    'hand-written model lean/PysphVerif/Model/TreeReduce.lean (level-1 hmax reduction of the parallel octree build as micro-steps on per-thread tables + serial merge; the same loop on one shared table; pruning test of OctreeNNPS._get_neighbors; gather-or-scatter pair filter), the reduction tied bit-exactly at Float to the hmax of the level-1 children of Octree/CompressedOctree built under 1..16 threads (problem "treetie"); pruning test and pair filter are transcriptions, not tied',
     'translate/c05_rw_sets.py (Python ast): read/write sets of every Equation subclass under pysph/sph, re-extracted every run; index classification (d_idx, k*d_idx+offset = own row) and the hand-listed, reasoned exceptions are trusted',
     'exact commutativity stands in for "equal up to floating-point summation order"; IEEE rounding is sampled by the system runs only',
     'OpenMP memory model / absence of data races between different rows; compyle, Cython, g++',
@@ -13,7 +14,9 @@ TRUSTED_BASE = [
 ASSUMPTIONS = [
     'serial (single process) CPU runs; MPI and GPU back ends out of scope',
     'particles carry unique gids (the harness assigns them): --sort-gids then sorts by a key that travels with the particle',
-    'fixed time step; 4 steps on three small problems with PEC-type integrators (2D two-array tank, 3D free-surface block, 2D periodic box) and 12 steps with --reorder-freq 2..6 on a 400-particle periodic box integrated by the shipped GTVFScheme/GTVFIntegrator (first evaluation of a step re-uses the NNPS: update_nnps=False); 6 steps of a non-periodic rarefying disc (1245 particles) whose smoothing length is recomputed from the density inside two update_nnps=True groups (a plain one and one made of sub-groups) so that max(h) grows by >= 25% inside each of them, reference run --nnps tree',
+    'fixed time step; 4 steps on three small problems with PEC-type integrators (2D two-array tank, 3D free-surface block, 2D periodic box) and 12 steps with --reorder-freq 2..6 on a 400-particle periodic box integrated by the shipped GTVFScheme/GTVFIntegrator (first evaluation of a step re-uses the NNPS: update_nnps=False); 6 steps of a non-periodic rarefying disc (1245 particles) whose smoothing length is recomputed from the density inside two update_nnps=True groups (a plain one and one made of sub-groups) so that max(h) grows by >= 25% inside each of them, reference run --nnps tree; a two-array tank whose smoothing lengths are constant in time but not uniform in space (wall 1.5 dx, fluid dx +-10% with isolated particles of 1.6-3 dx next to the centre lines of the bounding box, lattice order) in two sizes: 32x32 fluid particles / 6 steps for every --nnps value x --fixed-h x tuning options, 96x96 / 24 steps (48 rebuilds) for thread sweeps of the octree build and the neighbour cache',
+    'the OpenMP runtime is driven with two wait policies (idle threads sleep / spin 30000 iterations) to obtain both staggered and simultaneous starts of the threads of a parallel region; schedules are sampled, not enumerated',
+    'tuning options of a neighbour algorithm (--stratified-grid-num-levels, --tree-leaf-max-particles, --spatial-hash-table-size, --spatial-hash-sub-factor) and --fixed-h on problems whose h is constant in time are taken to be part of "a different neighbour-search algorithm": the state must equal that of plain --nnps ll; --approximate-nnps is excluded',
     'group-level interference between two different equations of one group (one writes d_X, another reads s_X) is not in the per-class table',
 ]
 READY = True
@@ -24,7 +27,11 @@ LEVEL_TEXT = ("Lean 4 theorems over every row type, pair function, state, neighb
               "eval_depends_on_nbr_set_when_sorted, sorted_loop_configuration_independent, eval_indep_of_nbr_order_of_comm, "
               "perm_equivariance, sorted_order_travels_with_particles, sorted_simulation_configuration_independent, "
               "schedule_matters_without_discipline) about a "
-              "hand-written model of the generated pair loop, plus own_row_discipline_table / exceptions_are_real decided "
+              "hand-written model of the generated pair loop; about the neighbour search itself: level1_hmax_schedule_independent, "
+              "level1_hmax_thread_configuration_irrelevant, level1_hmax_bounds_octant (parallel octree build = serial build for every "
+              "thread count, chunking and interleaving), shared_hmax_lost_update / shared_hmax_single_thread_ok (one shared table is "
+              "not), prune_sound / prune_unsound_if_hmax_underestimated (tree walk), isNbr_symm, gather_only_eq_of_uniform_h, "
+              "gather_only_misses_scatter (pair filter vs --fixed-h); plus own_row_discipline_table / exceptions_are_real decided "
               "over the read/write sets extracted from all 288 shipped Equation subclasses on every run. The model is tied "
               "to the generated code by bit-exact execution at Float; the property itself is evaluated on the real code by "
               "differential runs through Application.run over --nnps x --cache-nnps x --openmp/threads x --reorder-freq x "
@@ -32,8 +39,10 @@ LEVEL_TEXT = ("Lean 4 theorems over every row type, pair function, state, neighb
 LEVEL_NOTE = ("Proof of the discipline that makes schedules and neighbour order irrelevant; the system runs are sampled "
               "(quick: ~28 configurations of the two-array problem, every --nnps value sorted and unsorted, + 6 tie traces + 8 configurations "
               "of the 12-step GTVF problem with re-orders inside the time loop + 8 configurations of the adaptive-h 'rarefy' problem "
-              "(ll, tree, comp_tree, two more binning algorithms, one stratified one; compared with --nnps tree and pairwise; a crashed run is a property failure); "
-              "thorough: the full option matrix on three problems + ~55 GTVF configurations + ~40 'rarefy' configurations over all ten --nnps values, ~1700 runs). Not covered by proof: IEEE rounding, real OpenMP interleavings/memory model, exactness of each "
+              "(ll, tree, comp_tree, two more binning algorithms, one stratified one; compared with --nnps tree and pairwise; a crashed run is a property failure) "
+              "+ 24 configurations of 'multires' (every --nnps value once with --fixed-h and once with non-default tuning options) + 24 of 'multires_big' "
+              "(tree / comp_tree / cached searches under 3..16 threads, spin-wait, each twice, incl. threaded builds under a serial evaluation) + the octree tie (288 builds); "
+              "thorough: the full option matrix on three problems (+ 30 --fixed-h / tuning-option configurations each) + ~55 GTVF configurations + ~40 'rarefy' configurations over all ten --nnps values + ~100 'multires' configurations, ~1900 runs). Not covered by proof: IEEE rounding, real OpenMP interleavings/memory model, exactness of each "
               "NNPS (C01), interference between different equations of one group, re-ordering inside the multi-stage theorem "
               "(perm_equivariance is per loop). Known findings tolerated: --reorder-freq with sh/esh/strat_hash "
               "(NotImplementedError), z-order family on multi-array problems (C01).")
